@@ -454,27 +454,28 @@ func CheckC03(h *History) []Violation {
 		img, _ := readCdrFile(w.Data)
 		if field == "record-payload" && img != nil && img.BadRecord != nil && len(img.BadRecord) > 65535 && wop != nil {
 			// a record larger than the 16-bit CdrLength can express: say how it came about
-			// the culprit is the op whose containers took the record past 65535 bytes
+			// The culprit is the op that made the record oversize.  Writes are checked in
+			// order, so this is the first image in which the record is too large: if the op
+			// that wrote it added usage to this record, it is the culprit; otherwise (it only
+			// re-dumped a record that was already too large, e.g. one opened by a create,
+			// which writes no file itself) the culprit is the last earlier op that did.
 			sizes := containerSizes(img.BadRecord)
-			total := 0
-			for _, n := range sizes {
-				total += n
-			}
-			cum := len(img.BadRecord) - total // everything that is not a usage container
-			culprit, own := wop, 0
-		scan:
-			for _, o := range h.Ops {
-				mine := 0
+			ownOf := func(o *OpResult) int {
+				n := 0
 				for _, c := range o.Reported {
-					mine += sizes[int64(c.Seq)]
+					n += sizes[int64(c.Seq)]
 				}
-				if mine == 0 {
-					continue
-				}
-				cum += mine
-				if cum > 65535 {
-					culprit, own = o, mine
-					break scan
+				return n
+			}
+			culprit, own := wop, ownOf(wop)
+			if own == 0 {
+				for _, o := range h.Ops {
+					if o == wop {
+						break
+					}
+					if n := ownOf(o); n > 0 {
+						culprit, own = o, n
+					}
 				}
 			}
 			cause := "record-grew-past-limit"
